@@ -119,14 +119,15 @@ pub fn profile(name: &str) -> Profile {
             w_remove_all: 1,
             w_meta: 2,
             w_query: 30,
-            w_handle_open: 2,
-            w_handle_io: 4,
+            w_handle_open: 0,
+            w_handle_io: 0,
             w_cat: 2,
             w_reopen: 3,
             w_refuse: 6,
             unicode: 60,
             bad_names: 15,
             small_bias: true,
+            tree: true,
             ..base
         },
         "refuse" => Profile {
@@ -140,7 +141,9 @@ pub fn profile(name: &str) -> Profile {
             w_meta: 40,
             w_query: 20,
             w_reopen: 8,
-            w_handle_io: 6,
+            w_handle_io: 0,
+            w_handle_open: 0,
+            tree: true,
             ..base
         },
         "persist" => Profile { name: "persist", w_reopen: 12, ..base },
